@@ -15,6 +15,9 @@ CLAIMED = {
  'C03': ("runtime monitor: randomized specification-conformant printer (value = oracle) -> real parser; exhaustive token-adjacency matrix; tape shrinking to minimal feature labels",
          "Values of every Primitive kind printed with every legal spelling choice (white-space kinds, comments with LF/CR/CRLF ends, no separator where legal, literal-string escapes/octal/continuations/balanced parens/raw EOLs, hex strings with white-space and odd digits, #xx names, signed/leading-zero/fraction-only numbers, references, LF/CRLF after `stream`) and parsed by parser::parse / parse_with_lexer (sequences, Lexer::get_pos checked) / parse_indirect_object / parse_stream; exhaustive 15x15 token kinds x 12 separators x 3 contexts, all 256 one-byte strings per spelling, all #xx names. Held on the executions observed.",
          "Trusts harness/src/printer.rs to emit only ISO 32000-1 conformant spellings; names limited to valid UTF-8 without NUL; reals to <= 7 significant digits (compared within 1 ulp).", "5/C03"),
+ 'C04': ("runtime monitor: generated Primitive trees -> real serializer -> real parser, in four placements (round-trip oracle), boundary-leaf sweep, tape shrinking",
+         "Random trees (depth <= 16, all string bytes, names over Unicode scalar values, boundary and random-bit finite reals, i32 boundaries, references, streams) are serialised by the real writer (Storage::save framing via PdfBuilder, Primitive::serialize, serialize_ops) and re-read by the real parser; the original value is the oracle (Integer≡Number). Complete sweep of boundary leaves x 4 placements. Panic monitor on every call. Held on the executions observed.",
+         "Placement (i) locates the object in PdfBuilder output by its `n g obj` header; NaN/inf excluded (not finite).", "5/C04"),
 }
 NOT_YET = "check not built yet in this round (planned, see DESIGN.md §5)"
 
